@@ -174,11 +174,11 @@ func main() {
 				fmt.Printf("FINDING property=%s rule=%s construct=%s at %s: %s\n", *prop, o.Rule, o.Construct, o.Pos, o.Detail)
 			}
 		}
-		if len(res.Errors) > 0 {
-			os.Exit(2)
-		}
 		if n > 0 {
 			os.Exit(1)
+		}
+		if len(res.Errors) > 0 {
+			os.Exit(2)
 		}
 		return
 	}
